@@ -528,8 +528,15 @@ async def serve(
     )
 
     # Define the initial plan.py as a static file and create a step for it.
-    async with db:
-        initialized = handler.workflow.initialize_boot()
+    # On a fresh database this declares `plan.py`, which is rejected when `plan.py` itself
+    # is requested as a build target: report it like any other invalid target.
+    try:
+        async with db:
+            initialized = handler.workflow.initialize_boot()
+    except GraphError as exc:
+        await reporter("ERROR", f"Invalid build target: {exc}")
+        await reporter.warn_about_logs()
+        return ServeResult(returncode=ReturnCode.FAILED, usage_report="", usage_summary="")
     if initialized:
         await reporter("STARTUP", "(Re)initialized boot script")
     else:
